@@ -504,11 +504,11 @@ type loopNest struct {
 	p      *Pkg
 	Ranges []rangeInfo
 	Digit  map[types.Object]digitInfo
-	SD    []sdCall
-	Sums  map[types.Object][]types.Object // svdst local -> summed sd results
-	Zero  map[types.Object]bool
-	Guard map[types.Object]bool
-	sem   map[types.Object]locSem
+	SD     []sdCall
+	Sums   map[types.Object][]types.Object // svdst local -> summed sd results
+	Zero   map[types.Object]bool
+	Guard  map[types.Object]bool
+	sem    map[types.Object]locSem
 }
 
 func (ln *loopNest) sumOf(o types.Object) (metrics []string, isZero bool, found bool) {
